@@ -180,7 +180,12 @@ func (fc *ProtoForkChoice) ProcessAttestation(index ValidatorIndex, blockRoot Ro
 	defer fc.mu.Unlock()
 	// only add the vote if we can. Don't add if it's not within view.
 	blockSlot, ok := fc.protoArray.GetSlot(blockRoot)
-	if !ok || blockSlot < headSlot {
+	if !ok || headSlot < blockSlot {
+		return false
+	}
+	// the vote is for the node of the block root at the head slot (the block itself, or a gap slot after it):
+	// that node has to exist.
+	if closest, err := fc.protoArray.ClosestToSlot(blockRoot, headSlot); err != nil || closest.Slot != headSlot {
 		return false
 	}
 	return fc.voteStore.ProcessAttestation(index, blockRoot, headSlot)
